@@ -4,7 +4,7 @@ C11 — zero-length DATA frames that do not end the stream.
 
 HTTP/2 allows them anywhere; a cut-set enumeration over the n-1 inner positions of a byte stream
 never produces one. They must be invisible: no `Message` call, no state change — in every state
-`adapter.Data` can leave the adapter in, with no bound on sizes. Together with
+`adapter.Data` can leave the adapter in. Together with
 `frames_eq_batch` (which already quantifies over frame lists containing empty frames) this puts
 them inside the fragmentation theorems.
 -/
@@ -12,9 +12,9 @@ namespace Martian.Props.C11
 open Martian Martian.Grpc
 
 /-- The states `adapter.Data` returns in: waiting for the rest of a prefix, or for the rest of a
-payload (as the code compares it). A new adapter is in such a state. -/
+payload. A new adapter is in such a state. -/
 def Quiescent (a : Adapter) : Prop :=
-  (a.reading = false → a.buf.length < 5) ∧ (a.reading = true → u32 a.buf.length < a.length)
+  (a.reading = false → a.buf.length < 5) ∧ (a.reading = true → a.buf.length < a.length)
 
 theorem fresh_quiescent (e : Enc) : Quiescent (fresh e) := by
   simp [Quiescent, fresh]
@@ -40,8 +40,8 @@ theorem data_leaves_quiescent (cd : Codec) (a a' : Adapter) (d : Bytes) (es : Bo
     have h1 : a.buf.drop 5 = [] := by have := he; simp [a1] at this; exact List.drop_eq_nil_of_le this.1
     have h2 : be32 (a.buf.drop 1) ≠ 0 := by have := he; simp [a1] at this; simpa using this.2
     refine ⟨by simp [a1], fun _ => ?_⟩
-    show u32 (a.buf.drop 5).length < be32 (a.buf.drop 1)
-    rw [h1]; simpa [u32] using Nat.pos_of_ne_zero h2
+    show (a.buf.drop 5).length < be32 (a.buf.drop 1)
+    rw [h1]; simpa using Nat.pos_of_ne_zero h2
   | case7 a hr pre hlt a1 he r ih => exact ih (by simpa [r] using h)
 
 /-- **An empty DATA frame without END_STREAM is a no-op**: no call to the processor, nothing to
@@ -52,12 +52,12 @@ theorem empty_frame_is_noop (cd : Codec) (a : Adapter) (hq : Quiescent a) :
   unfold data
   rw [app_nil]
   cases hr : a.reading with
-  | true => exact loop_reading_wrapped cd false a hr (hq.2 hr)
+  | true => exact loop_reading_lt cd false a hr (hq.2 hr)
   | false => rw [loop_meta_lt cd false a hr (hq.1 hr)]; simp
 
 /-- **Empty frames are invisible in any frame sequence**: a DATA frame list, with END_STREAM on
 its last frame or not, has the same effect as the list with its zero-length frames removed — from
-every quiescent state, for every codec, without any size bound. The one exception is the one the
+every quiescent state, for every codec. The one exception is the one the
 statement itself singles out (and the code gets wrong, F11b): an empty frame that carries the
 END_STREAM. -/
 theorem empty_frames_invisible (cd : Codec) (a : Adapter) (hq : Quiescent a) (fs : List Bytes) (es : Bool)
@@ -141,10 +141,9 @@ example (cd : Codec) :
       = [⟨false, [0x41, 0x42], true⟩] := by
   rw [sprinkled_empty_frames_equivalent cd .identity [[0, 0, 0, 0, 2], [0x41], [0x42]] _ (by simp) (by simp) (by simp)]
   have := runFrames_eq_data cd (fresh .identity) [[0, 0, 0, 0, 2], [0x41], [0x42]] true (by simp) (by simp)
-    (by simp [fresh, Adapter.pending])
   rw [this]
   obtain ⟨a', h, _⟩ := data_stream cd true [⟨false, [0x41, 0x42], [0x41, 0x42]⟩] (by simp) (fresh .identity) ⟨rfl, rfl⟩
-    (by intro m hm; simp at hm; subst hm; simp [GMsg.ok, decode]) (by simp [stream, GMsg.frame, putBe32])
+    (by intro m hm; simp at hm; subst hm; simp [GMsg.ok, decode])
   have hs : stream [(⟨false, [0x41, 0x42], [0x41, 0x42]⟩ : GMsg)] = [0, 0, 0, 0, 2, 0x41, 0x42] := by
     simp [stream, GMsg.frame, putBe32]
   rw [hs] at h
